@@ -83,6 +83,14 @@ def showSubmit : SubmitRes → String
   | .dead => "dead"
   | .add r => s!"add-{showAdd r}"
 
+def showSubmitCoarse : SubmitRes → String
+  | .ok _ _ _ => "ok"
+  | .full _ _ _ => "full"
+  | .rbf _ => "rbf"
+  | .dead => "dead"
+  | .add .rejAnc => "rej-anc"
+  | .add r => s!"add-{showAdd r}"
+
 def findTx (s : St) (id : Nat) : Option Tx := s.txs.find? (·.id = id)
 
 def sameSet (a b : List Nat) : Bool := sortNat (dedup a) == sortNat (dedup b)
@@ -167,6 +175,28 @@ def stepWith (fix fixP fix3 fixM : Bool) (s : St) (ts : List String) : St × Str
         | none => s!"{e.tx.id}=none"
       (s, s!"ok {joinOr es}")
     else (s, "rbf-disabled")
+  | ["nsubmit", id, st, t] =>
+    -- node level: TxPoolController::submit_local_tx; the answer is the coarse class of the Reject
+    match (parseNat? id).bind (findTx s), parseStatus? st, parseNat? t with
+    | some tx, some st, some t =>
+      let r := submit s.pool tx st t
+      ({ s with pool := r.1 }, showSubmitCoarse r.2)
+    | _, _, _ => (s, "bad-op")
+  | ["nnotify", id, st, t] =>
+    -- node level: TxPoolController::notify_txs (verify queue worker): only pooled / not pooled is observable
+    match (parseNat? id).bind (findTx s), parseStatus? st, parseNat? t with
+    | some tx, some st, some t =>
+      let r := submit s.pool tx st t
+      ({ s with pool := r.1 }, match r.2 with | .ok _ _ _ => "ok" | _ => "rej")
+    | _, _, _ => (s, "bad-op")
+  | ["nblock", c, d, g, p, now, _q] =>
+    -- node level: a block processed by the chain service -> update_tx_pool_for_reorg (attached only)
+    match parseNatList? c, parseNatList? d, parseNatList? g, parseNatList? p, parseNat? now with
+    | some c, some d, some g, some p, some now =>
+      match c.mapM (findTx s) with
+      | some ctx => ({ s with pool := updateForBlock s.pool ctx [] d g p now }, "ok")
+      | none => (s, "bad-op")
+    | _, _, _, _, _ => (s, "bad-op")
   | ["dump"] => (s, dumpLine s.pool)
   | _ => (s, "bad-op")
 
